@@ -72,10 +72,15 @@ def apply(v: V, root=None):
     region = src[sp[0] : sp[1]]
     pat = r'\s+'.join(re.escape(t) for t in v.old.split())
     ms = list(re.finditer(pat, region))
-    if len(ms) <= v.occurrence:
-        return None
-    m = ms[v.occurrence]
-    new_region = region[: m.start()] + v.new + region[m.end() :]
+    if v.occurrence == 'all':
+        if not ms:
+            return None
+        new_region = re.sub(r'\b' + pat + r'\b', lambda _m: v.new, region)
+    else:
+        if len(ms) <= v.occurrence:
+            return None
+        m = ms[v.occurrence]
+        new_region = region[: m.start()] + v.new + region[m.end() :]
     new = src[: sp[0]] + new_region + src[sp[1] :]
     try:
         ast.parse(new)
